@@ -166,7 +166,7 @@ def run(ck):
     for b in cip.blocks.values():
         for r in ((b.term or {}).get("refs") or []):
             refs_all.add(r)
-    idle_push = [e for e in cip.calls(lambda e: e.base_callee() == "std::vector::push_back" and (e.get("recv") or {}).get("v") == "idlePeers")]
+    idle_push = [e for e in cip.calls(lambda e: e.base_callee() == "std::vector::push_back" and (e.get("recv") or {}).get("v") in {x["var"] for x in cip.events("decl") if "vector" in (x.get("type") or "") and "Peer" in (x.get("type") or "")})]
     ck.require(len(idle_push) >= 2, "idlePeers.push_back sites: %d" % len(idle_push))
     body_ok = True
     for e in idle_push:
